@@ -125,6 +125,33 @@ func (h *history) caseLine(tag string, dir int) string {
 type opResult struct {
 	res   string // ok | err | hang | panic
 	cross string // non-empty: bytes arrived at the wrong peer / pairing broken
+	slip  int    // ms by which the op began later than its place in the history (the machine was busy)
+}
+
+// stableHistory runs a timed history and, when the run was DISTURBED — some op began more than 250 ms late, so the gaps
+// the history is about were not the gaps that were run — and its outcome is not the expected one, runs it again (up to
+// three runs, with a pause): a history's verdict is about its own timing, not about the load on the machine.  An
+// undisturbed run is final whatever it shows.
+func stableHistory(h *history, run func(*history) ([]opResult, error)) ([]opResult, error) {
+	var res []opResult
+	var err error
+	for attempt := 0; attempt < 3; attempt++ {
+		res, err = run(h)
+		if err != nil {
+			return res, err
+		}
+		disturbed := false
+		for _, r := range res {
+			if r.slip > 250 {
+				disturbed = true
+			}
+		}
+		if !disturbed || brokerPredicate(h, res) == "ok" {
+			return res, nil
+		}
+		time.Sleep(time.Duration(2+attempt*3) * time.Second)
+	}
+	return res, err
 }
 
 // runHistory executes the history against a fresh real broker pair.
@@ -143,6 +170,7 @@ func runHistory(h *history) ([]opResult, error) {
 			defer wg.Done()
 			o := h.ops[i]
 			time.Sleep(time.Until(start.Add(time.Duration(o.at) * time.Millisecond)))
+			res[i].slip = int(time.Since(start).Milliseconds()) - o.at
 			acceptor, dialler := p.a, p.b
 			if o.dir == 1 {
 				acceptor, dialler = p.b, p.a
@@ -520,7 +548,7 @@ func runBrokerScenario(o *out, tag, replay string, gen func(r *rng) (plain, hook
 	run := func(hs []*history) {
 		results := make([][]opResult, len(hs))
 		errs := make([]error, len(hs))
-		parallel(len(hs), len(hs), func(i int) { results[i], errs[i] = runHistory(hs[i]) })
+		parallel(len(hs), len(hs), func(i int) { results[i], errs[i] = stableHistory(hs[i], runHistory) })
 		for i, h := range hs {
 			emitHistory(o, tag, h, results[i], errs[i])
 		}
@@ -552,7 +580,7 @@ func runBrokerScenario(o *out, tag, replay string, gen func(r *rng) (plain, hook
 			{6700, 'a', 310, 0, "fresh"}, {6800, 'd', 310, 0, "fresh"}, {6700, 'a', 311, 1, "fresh"}, {6800, 'd', 311, 1, "fresh"}}})
 		gres := make([][]opResult, len(ghs))
 		gerrs := make([]error, len(ghs))
-		parallel(len(ghs), len(ghs), func(i int) { gres[i], gerrs[i] = runGrpcHistory(ghs[i]) })
+		parallel(len(ghs), len(ghs), func(i int) { gres[i], gerrs[i] = stableHistory(ghs[i], runGrpcHistory) })
 		for i, h := range ghs {
 			emitGrpcHistory(o, h, gres[i], gerrs[i])
 		}
